@@ -16,6 +16,7 @@ Two independent kinds of verdict:
     one-step identities of the scheme, force routing (atoms feel the spring and bypassing biases
     only), (v, thorough) <m v^2> = k_B T under friction with the seeded Gaussian source.
 """
+import json
 import math
 import os
 import re
@@ -175,6 +176,10 @@ def gen_lock(rng, idx, tier, force=None):
     c["traj"] = (idx % 3 == 0)
     # without the optional outputs (velocity, energy, forces: the defaults) the variable keeps less per-step history of its own
     c["outputs"] = force.get("outputs", rng.random() < 0.5)
+    # every bias deleted through the script at some step: the variable goes on (spring on the atoms, integration) without them
+    c["delete_at"] = None
+    if c["biases"] and seg == "none" and (force.get("delete") or rng.random() < 0.25):
+        c["delete_at"] = rng.randint(5, T - 5)
     return c
 
 
@@ -263,6 +268,9 @@ def scenarios(case, wd):
         return [(s0, p0), (s1, p1)]
     s, p = header(case, 0, wd), []
     for t in range(T + 1):
+        if case.get("delete_at") == t:
+            for b in case["biases"]:
+                s += "script " + json.dumps(["cv", "bias", b["name"], "delete"]) + "\n"
         s += pos(case, case["hist"][t]) + "step\ngauss\n"
         p.append((t, False))
         if case["seg"] == "newrun" and t in case["Ks"]:
@@ -443,7 +451,11 @@ def analyse(c, case, outs):
             # ---- bias forces observed at this step -------------------------------------------------
             F_nb, F_byp = 0.0, 0.0
             A_nb, A_byp = 0.0, 0.0      # sums of magnitudes: scale of the rounding of the force sums
-            for b in case["biases"]:
+            deleted = case.get("delete_at") is not None and t >= case["delete_at"]
+            if deleted and any(b["name"] in e["bias"] for b in case["biases"]):
+                V.bad = ("harness", "bias still present after its deletion")
+                return V
+            for b in ([] if deleted else case["biases"]):
                 be = e["bias"].get(b["name"])
                 if be is None or not be["f"]:
                     V.bad = ("harness", "bias %s not in the event" % b["name"])
